@@ -140,3 +140,22 @@ pub fn drive(probes: &[fn(&str, &mut Vec<String>)]) {
         }
     }
 }
+
+/// parse errors to pair with an arbitrary subject: what `Pointer::parse` returns on a few inputs, and hand-made ones (the error
+/// types have public fields) with small offsets
+pub fn sample_parse_errors() -> Vec<jsonptr::ParseError> {
+    use jsonptr::{ParseError, Pointer};
+    let mut v: Vec<ParseError> = Vec::new();
+    for t in ["a", "/~", "/ab/~", "/abc/d~", "/a/b~2", "/~/~", "/é~"] {
+        if let Err(e) = Pointer::parse(t) { v.push(e); }
+    }
+    for off in 0..5usize {
+        for so in 0..3usize {
+            v.push(ParseError::InvalidEncoding {
+                offset: off,
+                source: jsonptr::EncodingError { offset: so, source: jsonptr::InvalidEncoding::Tilde },
+            });
+        }
+    }
+    v
+}
